@@ -54,5 +54,6 @@ P5321 == <<5, 3, 2, 1>>
 AlphaNT == {"next", "tick"}
 AlphaPert == {"next", "tick", "setprio", "addback", "addfront", "conduse"}
 AlphaPertNoTick == {"next", "setprio", "addback", "addfront"}
+AlphaPertCond == {"next", "setprio", "addback", "addfront", "conduse"}
 AlphaReAdd == {"next", "readd"}
 =============================================================================
